@@ -62,6 +62,8 @@ class Engine:
         self.uf_mode = False
         self.records = {}
         self.allow_hash = False
+        self.eigh_contract = False
+        self.eigh_hook = None
         self.path_status = {}
 
     def fresh_name(self, base):
@@ -315,6 +317,23 @@ class Engine:
             r0, _ = self.check(*hyp, with_axioms=False, timeout_ms=to)
             if r0 == 'unsat':
                 return Outcome(name, 'skip', None, info, list(self.decisions), 'instance not on this path')
+        if (info or {}).get('standalone'):
+            # a lemma that follows from the listed hypotheses alone (each of them an axiom / assumption of this path): decided
+            # without the path condition and the other assumptions (fewer hypotheses: unsat stays unsat with more)
+            s0 = z3.Solver()
+            s0.set('timeout', int(to or self.timeout_ms))
+            for h in hyp:
+                s0.add(h)
+            s0.add(neg)
+            t = time.time()
+            r0 = str(s0.check())
+            self.tq += time.time() - t
+            self.nq += 1
+            if r0 == 'unsat':
+                return Outcome(name, 'ok', None, info, list(self.decisions), 'standalone', sexpr=_short(zs))
+            if (info or {}).get('standalone') == 'only':
+                st = 'cex' if (r0 == 'sat' and name.startswith('twin:')) else 'unknown'
+                return Outcome(name, st, None, info, list(self.decisions), 'standalone query %s' % r0, sexpr=_short(zs))
         # assumption slicing: without stub axioms first
         if self.axioms:
             r, s = self.check(neg, *hyp, with_axioms=False, timeout_ms=to)
